@@ -25,14 +25,15 @@ def prop(pid, stages, **kw):
 
 WIRE_NOTE = "McWire enumerates every value of the star domains of spec/Domain.tla (all 15 packet kinds) and every emitted behaviour is replayed; random drivers add sampled values"
 
-prop("C01", lambda t, s: [("mc", "Mc", n(t, "McFaults", "McFaults2")), ("drive", "fuzz", n(t, 1500, 40000))],
+prop("C01", lambda t, s: [("mc", "Mc", n(t, "McFaults", "McFaults2")), ("drive", "fuzz", n(t, 1500, 40000)), ("drive", "bigdec", n(t, 0, 1))],
      exhaustive_note="McFaults enumerates every first-order fault of spec/Faults.tla on the tiny domain; every faulted buffer goes to all 16 packet decoders, 7 sub-decoders and the datagram decoder")
-prop("C02", lambda t, s: [("mc", "Mc", "McWire"), ("drive", "rt", n(t, 1500, 60000)), ("drive", "rtlist", n(t, 300, 10000))], exhaustive_note=WIRE_NOTE)
-prop("C03", lambda t, s: [("mc", "Mc", "McWire"), ("drive", "rt", n(t, 1500, 60000))], exhaustive_note=WIRE_NOTE)
-prop("C05", lambda t, s: [("mc", "Mc", "McWire"), ("drive", "rt", n(t, 1500, 60000)), ("drive", "rtlist", n(t, 300, 10000))], exhaustive_note=WIRE_NOTE)
+prop("C02", lambda t, s: [("mc", "Mc", "McWire"), ("drive", "rt", n(t, 1500, 60000)), ("drive", "rtlist", n(t, 300, 10000)), ("drive", "bigframes", n(t, 0, 1))], exhaustive_note=WIRE_NOTE)
+prop("C03", lambda t, s: [("mc", "Mc", "McWire"), ("drive", "rt", n(t, 1500, 60000)), ("drive", "bigframes", n(t, 0, 1))], exhaustive_note=WIRE_NOTE)
+prop("C05", lambda t, s: [("mc", "Mc", "McWire"), ("drive", "rt", n(t, 1500, 60000)), ("drive", "rtlist", n(t, 300, 10000)), ("drive", "bigframes", n(t, 0, 1))], exhaustive_note=WIRE_NOTE)
 prop("C09", lambda t, s: [("mc", "Mc", n(t, "McFaults", "McFaults2")), ("drive", "fuzzdgram", n(t, 8000, 300000))],
      exhaustive_note="McFaults enumerates every first-order fault on the tiny domain and follows every accepted datagram through Marshal and a second decode")
-prop("C10", lambda t, s: [("mc", "Mc", "McWire"), ("drive", "rt", n(t, 1500, 60000))], exhaustive_note=WIRE_NOTE)
+prop("C10", lambda t, s: [("mc", "Mc", "McWire"), ("mc", "Mc", n(t, "McCompound", "McCompound4")), ("drive", "rt", n(t, 1500, 60000)), ("drive", "cprand", n(t, 300, 20000))],
+     exhaustive_note=WIRE_NOTE + "; McCompound gives every member sequence of up to 3 (thorough: 4) over 14 representative kinds to CompoundPacket.DestinationSSRC")
 
 DEFAULT_LEVEL = ("Bounded exhaustive model checking of the TLA+ specification (the property's invariants hold in every reachable state of the bounded "
                  "configuration) plus conformance: every behaviour TLC emitted is replayed on the real code and every recorded call of the real code "
@@ -44,7 +45,7 @@ NOT_YET = {}
 
 prop("C04", lambda t, s: [("mc", "Mc", "McVariants"), ("mc", "Mc", n(t, "McFaults", "McFaults2")), ("drive", "fuzz", n(t, 1200, 40000))],
      exhaustive_note="McVariants enumerates every alternative and count-inflated encoding of spec/Variants.tla over VarDom/InflateDom; McFaults every first-order fault on the tiny domain")
-prop("C06", lambda t, s: [("mc", "Mc", n(t, "McDgram", "McDgram3")), ("drive", "frameseq", n(t, 600, 30000))],
+prop("C06", lambda t, s: [("mc", "Mc", n(t, "McDgram", "McDgram3")), ("drive", "frameseq", n(t, 600, 30000)), ("drive", "bigframes", n(t, 0, 1))],
      exhaustive_note="McDgram enumerates every sequence of up to 2 (thorough: 3) pieces over the frame set of spec/Domain.tla (valid frames of every kind, raw frames, malformed frames, incomplete tails)")
 prop("C07", lambda t, s: [("mc", "Mc", n(t, "McDispatch", "McDispatchAll")), ("mc", "Mc", "McForeign"), ("mc", "Mc", "McWire"), ("drive", "fuzz", n(t, 600, 20000))],
      exhaustive_note="McDispatch enumerates 28 packet types (thorough: all 256) x 32 FMT values x 4 bodies; McForeign gives every star-domain encoding to all 16 decoders")
@@ -52,7 +53,7 @@ prop("C08", lambda t, s: [("mc", "Mc", "McLimits"), ("drive", "limits", n(t, 100
      exhaustive_note="McLimits enumerates the values at, just below and just above every wire limit named by the property (LimitDom of spec/Domain.tla)")
 
 prop("C11", lambda t, s: [("mc", "Mc", n(t, "McCompound", "McCompound4")), ("drive", "cprand", n(t, 600, 30000))],
-     exhaustive_note="McCompound enumerates every sequence of up to 3 (thorough: 4) members over the 13 representative kinds of CpKinds (spec/Domain.tla): SR, RR, six SDES shapes, BYE, feedback, APP, XR, Raw")
+     exhaustive_note="McCompound enumerates every sequence of up to 3 (thorough: 4) members over the 14 representative kinds of CpKinds (spec/Domain.tla): SR, RR with and without report blocks, six SDES shapes, BYE, feedback, APP, XR, Raw")
 
 prop("C12", lambda t, s: [("mc", "NackAlg", n(t, "McNack", "McNackThorough")), ("drive", "nackrand", n(t, 1500, 60000))],
      exhaustive_note="McNack enumerates every list of up to 3 sequence numbers over 17 (thorough: 26) boundary values, Range with every stop position on every pair built from lists of up to 2, and the complete 2^16 bitmap table at 2 (thorough: 6) packet IDs")
@@ -63,7 +64,7 @@ prop("C13", lambda t, s: [("mc", "TwccAlg", n(t, "McTwcc", "McTwccThorough")), (
 prop("C14", lambda t, s: [("mc", "RembAlg", n(t, "McRemb", "McRembThorough")), ("mc", "Mc", "McWireRemb"), ("drive", "rembrand", n(t, 300, 20000))],
      exhaustive_note="McRemb steps the decoder loop on 53 structured mantissas x 5 exponents and the encoder loop on 128 boundary floats, and emits the complete 2^18 mantissa table at exponent 0 (thorough: at 0, 1, 31, 62, 63) plus the structured rows at 6 (thorough: all 64) exponents; the scaling lemma RowOK extends the exponent-0 table to the other exponents")
 
-prop("C15", lambda t, s: [("mc", "XrWalk", n(t, "McXr", "McXrThorough")), ("mc", "Mc", "McWireXr"), ("drive", "xrrand", n(t, 1500, 60000))],
+prop("C15", lambda t, s: [("mc", "XrWalk", n(t, "McXr", "McXrThorough")), ("mc", "Mc", "McWireXr"), ("drive", "xrrand", n(t, 1500, 60000)), ("drive", "bigframes", n(t, 0, 1))],
      exhaustive_note="McXr enumerates every sequence of 0..2 (thorough: 0..3) report blocks over 17 block choices (the 7 defined kinds, unknown types 0, 8, 255 with different contents, empty and longer lists, other flag combinations) and walks each encoding with an independent block walker; McWireXr sweeps the XR star domain")
 
 prop("C16", lambda t, s: [("mc", "UnitsMc", n(t, "McUnits", "McUnitsThorough")), ("mc", "Mc", "McWireUnits"), ("drive", "units", n(t, 2000, 50000)), ("drive", "sweeps", n(t, 65537, 1))],
